@@ -122,3 +122,6 @@ def run(ctx):
 
     r = ctx.rule("R6", "register allocation under pressure: every allocator arm pushes its op with the operands in their own positions and follows the load / store / bind protocol (the spill arms are reached by the 12-register native tapes)", 21)
     ctx.guarded(r, AP_.r4_protocol)
+    # the property compares the native evaluators *with the interpreter*: a slip in one interpreter loop (C02j-3: the
+    # single-point Store arm copying in Load's direction, reached once a tape spills) breaks the agreement just as well
+    ctx.include('C01', 'the interpreter is the reference the native evaluators must agree with', only=('R3',))
